@@ -18,7 +18,8 @@ RULE = ("route tables of 1..4 applications x 1..4 command codes (the same code u
 
 LIB_OF = {"S6a": "etsi_3gpp_s6a", "Gx": "etsi_3gpp_gx", "Rx": "etsi_3gpp_rx", "SWx": "etsi_3gpp_swx", "Gy": "etsi_3gpp_gy", "S13": "etsi_3gpp_s13"}
 OUTCOMES = ["typed-answer", "generic-answer", "none", "int", "request-object", "ValueError", "KeyError", "RuntimeError",
-            "bare-exception", "exception-odd-args", "custom-exception", "assertion", "str-result", "list-result", "answer-class-not-instance"]
+            "bare-exception", "exception-odd-args", "custom-exception", "assertion", "str-result", "list-result", "answer-class-not-instance",
+            "answer-with-other-app-id"]
 
 
 class HandlerFailure(Exception):
@@ -87,8 +88,11 @@ def execute(acc, g, case):
                         if not a.has_avp("session_id_avp"):
                             a.append(SessionIdAVP(b"handler;0;0"))
                         return a
-                    if outcome in ("typed-answer", "generic-answer"):
-                        a = DiameterAnswer(command_code=rt["code"], application_id=rt["app_id"])
+                    if outcome in ("typed-answer", "generic-answer", "answer-with-other-app-id"):
+                        # (an answer object built for another application - e.g. a typed class shared between interfaces - must
+                        # still leave as the answer to *this* request, through this request's connection)
+                        other_ids = [r2["app_id"] for r2 in routes.values() if r2["app_id"] != rt["app_id"]] + [4, 16777999]
+                        a = DiameterAnswer(command_code=rt["code"], application_id=rt["app_id"] if outcome != "answer-with-other-app-id" else other_ids[0])
                         a.append(SessionIdAVP(b"handler;1;1"))
                         a.append(ResultCodeAVP(2001))
                         a.append(OriginHostAVP(appnode.LOCAL_HOST))
@@ -154,7 +158,7 @@ def execute(acc, g, case):
                     acc.violation("answer-identity-wrong:%s" % outcome, "sent (flags %#x, app %d, hbh %d, e2e %d, session ids %r) for request %r / %r" % (
                         lm.flags, lm.app_id, lm.hbh, lm.e2e, sids, req_ids, sid), w)
                     return
-                if outcome not in ("typed-answer", "generic-answer"):
+                if outcome not in ("typed-answer", "generic-answer", "answer-with-other-app-id"):
                     rc = [a.value for a in lm.avps if a.code == 268 and a.vendor is None]
                     oh = [a.value for a in lm.avps if a.code == 264]
                     orr = [a.value for a in lm.avps if a.code == 296]
